@@ -1,5 +1,11 @@
 """C20 — natural ordering: Lean model `NatSort.naturalCmp` (Model/NatSort.lean), theorems Props/C20.lean."""
+import hashlib
+import os
 import re
+
+# sha1 of txt/natural_sort.go without comments and white space, at the time Model/NatSortGo.lean was transcribed from it
+# statement for statement (the duplicated zero-skipping loop included)
+TRANSCRIBED_FROM = "bb5a11ce0855ffd03d9a4aaceeda1b39c1fcf9b9"
 
 _RUN20 = re.compile(rb"[1-9][0-9]{19,}")
 _TAILRUN = re.compile(rb"[0-9]+$")
@@ -53,7 +59,24 @@ def region(line, out):
     return "other"
 
 
+def source_fingerprint(repo):
+    try:
+        src = open(os.path.join(repo, "txt", "natural_sort.go"), errors="replace").read()
+    except OSError:
+        return None
+    src = re.sub(r"//[^\n]*", "", src)
+    return hashlib.sha1(re.sub(r"\s+", "", src).encode()).hexdigest()
+
+
 def run(ctx):
+    fp = source_fingerprint(ctx.repo)
+    ctx.extra["source_fingerprint"] = {"txt/natural_sort.go (comments and blanks removed) sha1": fp,
+                                       "is_the_text_NatSortGo_was_transcribed_from": fp == TRANSCRIBED_FROM}
+    if fp != TRANSCRIBED_FROM:
+        # not a violation (a behaviour-preserving rewrite is allowed); it says which claim still stands on this tree
+        ctx.assumptions.append("txt/natural_sort.go is not the text Model/NatSortGo.lean was transcribed from: "
+                               "C20.go_transcription_refines speaks about the earlier text; on this tree the tie "
+                               "between code and model is the correspondence run alone")
     ctx.modelled += ["slices.SortFunc is modelled by a merge sort; Props.C20.sorted_perm_unique shows every correct "
                      "sort returns the same list, so the comparison of sorted outputs is exact",
                      "the sort functions are handed a sub-slice of a larger array (0-2 elements in front, 0-3 spare "
@@ -67,3 +90,14 @@ def run(ctx):
              theorem="C20.cmp_antisymm / cmp_trans / cmp_zero_iff / cmp_key / digits_numeric / digit_before_nondigit / "
                      "proper_prefix_first / bytes_bytewise(_ci) / sortAsc_sorted (model = spec); "
                      "impl != model on this input")
+    # `rows`: one line = 256 comparisons (p+c1+sa against p+c2+sb for every byte c2). The first 8192 lines are an
+    # exhaustive block that does not depend on the seed: 16 fixed contexts x both modes x all 256 x 256 byte pairs,
+    # so every byte constant of the source ('0' '9' 'a' 'z' 'A' and their neighbours) is hit from both sides in every
+    # run; the rest are rows in random contexts. One shard, so that the block is emitted exactly once.
+    ctx.diff(area="rows", driver="drv_c20", n={"quick": 12800, "thorough": 100000}, shards=1,
+             trivial=lambda l, o: False, tagger=lambda l, o: "row:256-comparisons",
+             theorem="C20.go_transcription_refines / cmp_key / fold_exact / nonascii_byte (model = spec); "
+                     "impl != model for some byte c2 of this row (position of the first differing character)")
+    rows = ctx.kinds.get("rows:row", 0)
+    ctx.extra["row_comparisons"] = rows * 256
+    ctx.evals += rows * 255  # a row line is 256 evaluations of NaturalCmp/NaturalLess, counted once by diff()
